@@ -265,6 +265,19 @@ func (e *Engine) makeSlice(st *State, x *ssa.MakeSlice) bool {
 			s.fr.pc++
 			return
 		}
+		if !cp.K {
+			limit := e.cfg.Params["CONCRETIZE"]
+			if limit == 0 {
+				limit = 16
+			}
+			if e.ask(Gt(cp, KInt64(int64(limit)))) != "unsat" {
+				// too large to spell out: the slice exists but its elements are not modelled
+				id := s.newObj(OpaqueVal{"elements of a slice of symbolic size"}, nil)
+				s.fr.locals[x] = SliceVal{Obj: id, Off: KInt64(0), Len: ln, Cap: cp}
+				s.fr.pc++
+				return
+			}
+		}
 		e.concretize(s, cp, "makeslice cap", func(s2 *State, n int) {
 			el := make([]Value, n)
 			z := zeroValue(et)
@@ -674,6 +687,10 @@ func (e *Engine) invokeMethod(st *State, recv Value, m *types.Func, args []Value
 			return true
 		}
 		unsup("invoke %s on %s", m.Name(), describe(recv))
+	}
+	if g, isGlob := iv.V.(GlobVal); isGlob && m.Name() == "Match" {
+		ret(st, e.globMatch(st, g, e.toSMTString(st, args[0])))
+		return true
 	}
 	if _, isStub := iv.V.(stubObj); isStub {
 		// object handed out by an empty-bodied package (metrics, tracing): its methods do nothing
